@@ -191,7 +191,7 @@ func vconfig(prefix string) Config {
 		SkipListP:              0.5,
 		MemtableByteThreshold:  vf.Int(prefix+"memThr", 1, 120),
 		ImmutableBuffer:        vf.Choose(prefix+"ib", 0, vf.Param("IBMAX", 1)),
-		DataBlockByteThreshold: vf.Int(prefix+"blkThr", 1, 40),
+		DataBlockByteThreshold: []int{1, 40}[vf.Choose(prefix+"blk", 0, vf.Param("BLKMAX", 1))], // one entry per block / one block (arbitrary partitions: C10)
 		L0TargetNum:            vf.Choose(prefix+"l0", 1, vf.Param("L0MAX", 1)),
 		LevelRatio:             vf.Choose(prefix+"ratio", 1, vf.Param("RATIOMAX", 1)),
 	}
